@@ -1,7 +1,7 @@
 (* Assemble.v — instantiates the Section hypotheses of the checker proofs with the
    lemmas proved in the other files.  No new reasoning here. *)
 From PMC Require Import Spec.Lemmas.
-From PMC Require Proofs.GraphP Proofs.SccP Proofs.InfPath Proofs.RewriteP Proofs.CTLP Proofs.LTLP.
+From PMC Require Proofs.GraphP Proofs.SccP Proofs.InfPath Proofs.RewriteP Proofs.CTLP Proofs.LTLP Proofs.BddP Proofs.BddHistP Proofs.BddPrintP.
 
 Definition ctl_exact : C01_stmt :=
   PMC.Proofs.CTLP.C01_exact
@@ -14,3 +14,12 @@ Definition ltl_exact : C02_stmt :=
   PMC.Proofs.LTLP.C02_exact
     PMC.Proofs.GraphP.reach_exact PMC.Proofs.GraphP.reversed_spec PMC.Proofs.SccP.scc_correct
     PMC.Proofs.InfPath.gba PMC.Proofs.RewriteP.LNot_sem PMC.Proofs.RewriteP.restrict_sem.
+
+(* OBDD(str(o.root), o.ordering) == o with the identical root: the printer/parser round trip
+   (BddPrintP) instantiated with the correctness of expression building (BddHistP) *)
+Definition bdd_reparse_root :
+  forall s r O, PMC.Proofs.BddP.wf_store s -> nodup_vars O = true -> live s r = true ->
+    PMC.Proofs.BddP.ordered O s r ->
+    exists s', reparse_root s (r, O) = Ok (s', (r, O)) /\ PMC.Proofs.BddP.wf_store s' /\
+               PMC.Proofs.BddP.extends s s' :=
+  PMC.Proofs.BddPrintP.reparse_root_spec PMC.Proofs.BddHistP.bbuild_spec.
